@@ -32,7 +32,14 @@ import (
 type Tables struct {
 	SpecialForms [][2]string            `json:"special_forms"`
 	AllNames     []string               `json:"all_names"` // every script name of every table in the source
-	Configs      map[string]interface{} `json:"configs"`
+	Effects      map[string][]string    `json:"effects"`
+	Configs      map[string]struct {
+		Bindings []struct {
+			Name string `json:"name"`
+			Kind string `json:"kind"`
+			Fn   string `json:"fn"`
+		} `json:"bindings"`
+	} `json:"configs"`
 }
 
 func newEnv(cfg string) *zygo.Zlisp {
@@ -771,14 +778,14 @@ func main() {
 		}
 	}
 	var binDefined []string
-	var cmdDiffs []cmdlineDiff
+	var cmdDiffs, cmdAll []cmdlineDiff
 	if zygoBin != "" && a.Replay == "" {
 		for k, v := range runBinary(root, zygoBin, binjobs, stats) {
 			results[k] = v
 		}
 		all := append(append([]string{}, cands...), specials...)
 		binDefined, _ = binaryNames(root, zygoBin, all)
-		cmdDiffs = runCmdlines(root, zygoBin, a.Tier, rng.Fork(), all, specials, bound["std"], &jobs, results, stats)
+		cmdDiffs, cmdAll = runCmdlines(root, zygoBin, a.Tier, rng.Fork(), all, specials, bound["std"], bound["full"], effectfulNames(tabs), &jobs, results, stats)
 	} else if zygoBin != "" {
 		// replay against the binary as well when the configuration asks for it
 		var plain []Job
@@ -830,6 +837,10 @@ func main() {
 			}
 		}
 	}
+	// the command lines themselves: observed kind of interpreter vs the Coq model of the command line
+	for _, d := range cmdAll {
+		out.Case("cmdline "+d.Toks+" :: zygo "+d.Argv, d.Observed, true, "cfg:cmdline", "cmdline-observed:"+d.Observed)
+	}
 	out.Extra["effects_observed_by_cfg"] = effectSeen
 	out.Extra["run_stats"] = stats
 	out.Extra["entries_special"] = len(specials)
@@ -840,4 +851,16 @@ func main() {
 		os.WriteFile(bindingsOut, b, 0644)
 	}
 	out.Close(a.Stats)
+}
+
+// names the translator's tables consider effectful in the unrestricted configuration (called first when a
+// command line unexpectedly defines them)
+func effectfulNames(t Tables) map[string]bool {
+	m := map[string]bool{}
+	for _, b := range t.Configs["full"].Bindings {
+		if b.Fn != "" && len(t.Effects[b.Fn]) > 0 {
+			m[b.Name] = true
+		}
+	}
+	return m
 }
